@@ -20,6 +20,7 @@ import (
 	"errors"
 	"log"
 	"sync"
+	"sync/atomic"
 	"time"
 
 	"github.com/TheCacophonyProject/go-cptv/cptvframe"
@@ -33,8 +34,16 @@ const (
 var (
 	previousSnapshotID   = 0
 	previousSnapshotTime time.Time
-	mu                   sync.Mutex
+	// mu also guards the package variables processor and headerInfo, which are
+	// set by the frame reading loop and used by the D-Bus service goroutines.
+	mu sync.Mutex
 )
+
+func haveProcessor() bool {
+	mu.Lock()
+	defer mu.Unlock()
+	return processor != nil
+}
 
 func newSnapshot(lastFrame int) (*cptvframe.Frame, error) {
 	mu.Lock()
@@ -46,7 +55,7 @@ func newSnapshot(lastFrame int) (*cptvframe.Frame, error) {
 	if processor == nil {
 		return nil, errors.New("reading from camera has not started yet")
 	}
-	if lastFrame >= 0 && uint32(lastFrame) == processor.CurrentFrame {
+	if lastFrame >= 0 && uint32(lastFrame) == atomic.LoadUint32(&processor.CurrentFrame) {
 		return nil, errors.New("no new frames yet")
 	}
 
@@ -69,7 +78,7 @@ func newSnapshotRecording() error {
 		return errors.New("reading from camera has not started yet")
 	}
 
-	processor.StartSnapshot = true
+	processor.RequestSnapshot()
 	return nil
 }
 
@@ -77,7 +86,7 @@ func newSnapshotRecording() error {
 func snapshotRecordingTriggers(window window.Window) {
 
 	// Wait for motion processor to start
-	for processor == nil {
+	for !haveProcessor() {
 		time.Sleep(time.Second)
 	}
 
